@@ -378,6 +378,75 @@ pub fn coq_consts(consts: &[(u32, Data)]) -> String {
     coq_cons(&v)
 }
 
+/// Run-length encoding of id lists: maximal arithmetic progressions become `(arith s d k)`
+/// (coq/exec/FanModel.v).
+pub fn coq_ids_rle(xs: &[u32]) -> String {
+    let mut segs: Vec<String> = vec![];
+    let mut i = 0;
+    while i < xs.len() {
+        let mut j = i + 1;
+        if j < xs.len() && xs[j] > xs[i] {
+            let d = xs[j] - xs[i];
+            while j + 1 < xs.len() && xs[j + 1] > xs[j] && xs[j + 1] - xs[j] == d {
+                j += 1;
+            }
+            if j - i + 1 >= 4 {
+                segs.push(format!("(arith {} {} {})", xs[i], d, j - i + 1));
+                i = j + 1;
+                continue;
+            }
+        }
+        segs.push(format!("(cons {} nil)", xs[i]));
+        i += 1;
+    }
+    let mut s = String::new();
+    for seg in &segs {
+        s.push_str("(app ");
+        s.push_str(seg);
+        s.push(' ');
+    }
+    s.push_str("nil");
+    for _ in &segs {
+        s.push(')');
+    }
+    s
+}
+
+/// The same for traces: runs of entries with equal positions / flag and ids in arithmetic
+/// progression become `(rep_trace s d k ps f)`.
+pub fn coq_trace_rle(tr: &[TraceEntry]) -> String {
+    let mut segs: Vec<String> = vec![];
+    let mut i = 0;
+    while i < tr.len() {
+        let same = |a: &TraceEntry, b: &TraceEntry| a.in_place == b.in_place && a.reused == b.reused;
+        let mut j = i + 1;
+        if j < tr.len() && tr[j].uid > tr[i].uid && same(&tr[i], &tr[j]) {
+            let d = tr[j].uid - tr[i].uid;
+            while j + 1 < tr.len() && tr[j + 1].uid > tr[j].uid && tr[j + 1].uid - tr[j].uid == d && same(&tr[i], &tr[j + 1]) {
+                j += 1;
+            }
+            if j - i + 1 >= 4 {
+                segs.push(format!("(rep_trace {} {} {} {} {})", tr[i].uid, d, j - i + 1, coq_nats(&tr[i].in_place), tr[i].reused));
+                i = j + 1;
+                continue;
+            }
+        }
+        segs.push(format!("(cons ({}, {}, {}) nil)", tr[i].uid, coq_nats(&tr[i].in_place), tr[i].reused));
+        i += 1;
+    }
+    let mut s = String::new();
+    for seg in &segs {
+        s.push_str("(app ");
+        s.push_str(seg);
+        s.push(' ');
+    }
+    s.push_str("nil");
+    for _ in &segs {
+        s.push(')');
+    }
+    s
+}
+
 pub fn coq_trace(tr: &[TraceEntry]) -> String {
     let v: Vec<String> =
         tr.iter().map(|e| format!("({}, {}, {})", e.uid, coq_nats(&e.in_place), e.reused)).collect();
